@@ -28,8 +28,8 @@ def soup_jobs(ctx, mode, plan, framed=False, tolerate=()):
     return jobs
 
 
-MUT_LABELS = ["two", "stmt-mix", "params-multiline", "nested-middle", "class-methods", "one-arrow", "anon", "nested-3-levels"]
-MUT_OPS = ["prefix", "suffix", "delete", "dup", "swap", "replace"]
+MUT_LABELS = ["two", "stmt-mix", "params-multiline", "nested-middle", "nested-two", "class-methods", "one-arrow", "anon", "nested-3-levels"]
+MUT_OPS = ["none", "prefix", "suffix", "delete", "dup", "swap", "replace"]
 
 
 def mutation_jobs(ctx, labels=None, tolerate=()):
